@@ -615,7 +615,7 @@ class BackwardStepTarget(WireTarget):
         res['function_info'] = describe(fref)
         loops = find_loops(fref)
         try:
-            bw = [l for l in loops if isinstance(l, ast.For) and 'reversed' in ast.dump(l.iter)][0]
+            bw = [l for l in loops if isinstance(l, ast.For) and 'reversed' in ast.dump(l.iter) and 'range' in ast.dump(l.iter)][0]
         except IndexError:
             res['undecided'].append('contract target missing: backward loop of compute_gradient_and_dynamics')
             return res
